@@ -170,7 +170,12 @@ def list_append(st, lst, x):
     E.check_or_raise(st, z3.And(lst.z != 0, is_real_list(lst.z)), 'AttributeError')
     E.check_frame_contents(st, lst.z)
     s = st.list_seq(lst.z, et)
-    st.list_store(lst.z, et, SeqV(z3.Store(s.arr, s.n, st.coerce(x, et).z), s.n + 1))
+    narr = z3.Store(s.arr, s.n, st.coerce(x, et).z)
+    k = z3.Int('k!app')
+    # old-array terms give rise to the corresponding new-array terms (E-matching in both directions)
+    st.assume(z3.ForAll([k], z3.Implies(z3.And(0 <= k, k < s.n), z3.Select(narr, k) == z3.Select(s.arr, k)),
+                        patterns=[z3.Select(s.arr, k)]))
+    st.list_store(lst.z, et, SeqV(narr, s.n + 1))
 
 
 def list_extend(st, lst, other):
@@ -738,7 +743,7 @@ _GLOBAL_FUNCS = ('len', 'isinstance', 'set', 'list', 'dict', 'tuple', 'sorted', 
                  'unchanged', 'index_of', 'str_index', 'subseq', 'substr', 'str_len', 'setv',
                  'union_of', 'same_elems', 'is_fresh', 'seq_map_eq', 'let', 'emp', 'char_at',
                  'is_digit_str', 'str_to_int', 'concat_seq', 'mkseq', 'is_list', 'store', 'dict_has', 'dict_get',
-                 'dict_keys', 'implies_all', 'remove_positions', 'trig', 'same')
+                 'dict_keys', 'implies_all', 'remove_positions', 'trig', 'same', 'dict_index')
 
 
 def lookup_global(st, nm):
